@@ -5,6 +5,7 @@ package main
 
 import (
 	"fmt"
+	"sort"
 	"go/token"
 	"go/types"
 	"strings"
@@ -525,7 +526,14 @@ func (vc *VC) havocModifies(st *State, env *Env, callee *ssa.Function, m string)
 		if v.K == KRef && v.T != nil {
 			if mt, ok := v.T.Underlying().(*types.Map); ok {
 				// contents of one map
-				for hn, hs := range vc.mapHeaps(mt) {
+				mh := vc.mapHeaps(mt)
+				var mhn []string
+				for hn := range mh {
+					mhn = append(mhn, hn)
+				}
+				sort.Strings(mhn)
+				for _, hn := range mhn {
+					hs := mh[hn]
 					h := vc.heapGet(st, hn, hs)
 					_, args, _ := splitArgs(hs)
 					vc.heapSet(st, hn, hs, vc.sc.define("h", hs, store(h, v.S, vc.sc.fresh("mod", args[1]))))
